@@ -1237,6 +1237,17 @@ func (k *composer) leaf(res *Composition, t types.Type, pv pathint.Val, exp stri
 				res.Fields = append(res.Fields, FieldResult{Path: path, OK: true, Detail: "computed: " + want.String()})
 				return
 			}
+			// the value as a whole through its bits (bytes recombined by a library call have no linear translation one by one)
+			if bv, ok := pv.Bits.(bitdom.Vec); ok {
+				if f, ok := k.linOfVec(k.applyPreds(k.subst(bv))); ok {
+					g2 := k.c.IP.SimplifyForm(f, k.st)
+					d2 := g2.Sub(*want)
+					if k.st.ProveSimplified(d2) && k.st.ProveSimplified(d2.Scale(-1)) {
+						res.Fields = append(res.Fields, FieldResult{Path: path, OK: true, Detail: "computed: " + want.String() + " (through its bits)"})
+						return
+					}
+				}
+			}
 			res.Fields = append(res.Fields, FieldResult{Path: path, Detail: fmt.Sprintf("computed field: parsed %s, expected %s%s", got, want, cond)})
 			return
 		}
